@@ -20,6 +20,9 @@ def gen_case(rng, i=None, pruning=False, allow_none=True):
     if rng.random() < 0.06:
         xs = S.lookalikes(rng)
         pools = ['lookalike']
+    if rng.random() < 0.03:
+        xs = S.longtexts(rng)
+        pools = ['longtext']
     odd = rng.random() < 0.08
     if odd:
         # "odd one out": many strings of one class plus one or two look-alikes of a neighbouring class
@@ -52,7 +55,7 @@ def gen_case(rng, i=None, pruning=False, allow_none=True):
             size['max_strings_in_group'] = rng.choice([1, 2, 3, 10])
         if rng.random() < 0.3:
             size['max_punc_in_group'] = rng.choice([1, 2, 5])
-        seed = rng.choice([None, 1, 2, 12345])
+        seed = rng.choice([None, 0, 1, 2, 12345])
         if odd:
             size['do_all'] = rng.choice([2, 4, 5])
             size['do_all_exceptions'] = rng.choice([2, 4, 5])
